@@ -182,6 +182,10 @@ def handle : P String := do
     let a ← nextNat
     let b ← nextNat
     pure s!"{CD.hammingDistanceNat a b}"
+  | "HDNI" =>
+    let a ← nextNat
+    let b ← nextNat
+    pure s!"{CD.hammingDistanceNat a b} ; {showNats (CD.hammingDistanceNatIdx a b)}"
   | "TVD" =>
     let k ← nextNat
     let p ← nextInts k
